@@ -18,6 +18,8 @@ _REFUTED = [
     ('possible bit shift underflow/overflow', 'arithmetic-overflow'),
     ('invariant not satisfied at end of loop body', 'loop-invariant'),
     ('invariant not satisfied before loop', 'loop-invariant'),
+    ('loop invariant not satisfied', 'loop-invariant'),   # at a `continue` / `break`
+    ('loop ensures not satisfied', 'loop-invariant'),
     ('assertion failed', 'assertion'),
     ('decreases not satisfied', 'decreases'),
     ('could not prove termination', 'decreases'),
